@@ -157,6 +157,14 @@ def run_unit(ctx, unit):
                 bad("no-message-on-output-failure", "output failed without a message on standard error")
                 return
             st.count("failing_sink_runs")
+            if unit["policy"] == "stderr" and unit["valid"] and unit["gaps"] and unit["gaps"][0] and unit["values"] and "--take" not in unit["config"] and "-o" not in unit["config"] \
+                    and not any(t in c06.TRUNCATED for t in unit["gaps"][0]):
+                # malformed bytes in front of the first value were read (and reported) before the first row could fail to be
+                # written: the diagnostics belong on stderr however the run ends
+                if b"error:" not in err:
+                    bad("diagnostics-lost-on-failing-exit", "malformed input in front of the first row was read under --on-error=stderr, the run then failed on its dead stdout, and stderr holds no error: line")
+                    return
+                st.count("diagnostics_kept_on_failing_exit")
         else:
             if succeeded and rc != 0:
                 bad("exit-nonzero-nothing-to-write", "exit status %d although nothing had to be written" % rc)
@@ -166,6 +174,44 @@ def run_unit(ctx, unit):
 
 
 READABLE_LAYOUTS = ["linked-directory", "relative-linked-directory", "linked-file", "linked-directory-argument", "nested-directories"]
+
+
+def run_terminal(ctx, unit):
+    """No arguments at all and a terminal on standard input ("if omitted the standard in will be used"): what is typed is the
+    input, the rows go to stdout, status 0."""
+    import pty
+    import select
+    st = ctx.stats
+    binary = ctx.params["binary"]
+    lines = unit["lines"]
+    m, s = pty.openpty()
+    try:
+        p = subprocess.Popen([binary] + unit["targs"], stdin=s, stdout=subprocess.PIPE, stderr=subprocess.PIPE)
+        os.close(s)
+        s = None
+        for ln in lines:
+            os.write(m, ln + b"\n")
+        os.write(m, b"\x04")
+        try:
+            out, err = p.communicate(timeout=30)
+        except subprocess.TimeoutExpired:
+            p.kill()
+            p.communicate()
+            st.inconc("terminal_child_timeout")
+            return
+    finally:
+        if s is not None:
+            os.close(s)
+        os.close(m)
+    ref = subprocess.run([binary] + unit["targs"], input=b"\n".join(lines) + b"\n", stdout=subprocess.PIPE, stderr=subprocess.PIPE, timeout=60)
+    st.count("spawns", 2)
+    st.count("conclusive")
+    st.count("terminal_stdin_runs")
+    if p.returncode != 0 or out != ref.stdout or err:
+        st.violation("terminal-stdin", "values typed on a terminal: status %d, stdout %r (through a pipe: %r), stderr %r" % (p.returncode, out[:200], ref.stdout[:200], err[:200]),
+                     unit, {"args": unit["targs"]})
+        return
+    st.see("nontrivial", ("terminal", tuple(unit["targs"]), len(lines)))
 
 
 def run_unreadable(ctx, unit):
@@ -278,6 +324,11 @@ def worker(ctx):
         if ctx.expired():
             st.count("stopped_by_deadline")
             break
+        if ctx.rng.random() < 0.03:
+            unit = {"terminal": True, "lines": ctx.rng.sample([b'{"a": 1}', b"[1, 2]", b'"x"', b"7", b"null", b'{"k": {"l": []}}', b"true"], ctx.rng.choice((1, 3, 5))),
+                    "targs": ctx.rng.choice(([], [], [], ["--unique"], ["-c", ".=v"]))}
+            run_terminal(ctx, unit)
+            continue
         if ctx.rng.random() < 0.2:
             unit = {"unreadable": ctx.rng.choice(["stdin-directory", "missing-file", "missing-second-file", "unreadable-file", "socket-file", "socket-in-directory"] + READABLE_LAYOUTS),
                     "policy": ctx.rng.choice(POLICIES), "config": ctx.rng.choice(VALID), "values": [], "gaps": [[]], "wsseed": 0, "sep": "\n", "sink": "pipe",
@@ -311,7 +362,9 @@ def replay(env, unit):
 
     def ru(ctx, unit):
         ctx.params["binary"] = binary
-        if unit.get("unreadable"):
+        if unit.get("terminal"):
+            run_terminal(ctx, unit)
+        elif unit.get("unreadable"):
             run_unreadable(ctx, unit)
         else:
             run_unit(ctx, unit)
